@@ -15,8 +15,7 @@ RULE = ('decks whose universes contain LAT=2 cells bounded by six or eight plane
         'than one element.')
 NOT_PROVED = ['the geometric adjacency test areHexSidesAdjacent / hexSortSides (which side planes meet in an edge) and the '
               'projection of the vertices on the base plane: hextrav stream (constructed regular and irregular hexagons, '
-              'function level) and the deck monitor only',
-              'the axial vector a3 (projection of a vertex on the two end planes): monitor only']
+              'function level) and the deck monitor only']
 ASSUMPTIONS = ['right prisms (top/bottom planes normal to the axis)']
 
 
@@ -119,6 +118,36 @@ def hextrav_case(seed, rng, ctx):
                                   {'stream': 'hextrav', 'class': 'base-vector'}, rp))
     except Exception as e:  # noqa
         fails.append(fail('violation', 'hexLatticeBaseVectors raises %s on an admissible hexagon' % type(e).__name__,
+                          {'stream': 'hextrav', 'class': 'exception'}, rp))
+    # eight planes: the axial vector a3 (code vs the model hexAxialVector vs the translation of the construction)
+    try:
+        import struct
+        wl = sum(t * t for t in w) ** 0.5
+        wn = tuple(t / wl for t in w)
+        height = rng.choice([1.0, 2.5, 4.0])
+        below = rng.choice([0.0, 0.5, 1.5])
+        top_pt = tuple(c[i] + (height - below) * wn[i] for i in range(3))
+        bot_pt = tuple(c[i] - below * wn[i] for i in range(3))
+        flip = rng.random() < 0.5             # the eighth plane may be written with the opposite normal
+        n8 = tuple(-t for t in wn) if flip else wn
+        planes8 = list(planes) + [((top_pt, wn), -1), ((bot_pt, n8), 1 if not flip else -1)]
+        base8 = hexLatticeBaseVectors(planes8)
+        a3 = tuple(float(t) for t in base8[2])
+        exp = tuple(height * wn[i] for i in range(3))
+        if any(abs(exp[i] - a3[i]) > 1e-9 for i in range(3)):
+            fails.append(fail('violation', 'axial base vector is %r, the translation carrying the eighth-listed plane onto the '
+                              'seventh is %r' % (a3, exp), {'stream': 'hextrav', 'class': 'axial-vector'}, dict(rp, planes8=repr(planes8[6:]))))
+        vs0, axis0 = hexVertices(planes8, 0)
+        nums = list(vs0[0]) + list(top_pt) + list(wn) + list(bot_pt) + list(n8) + list(axis0)
+        resp = ctx['drv'].ask('hexaxial ' + ' '.join(repr(float(t)) for t in nums))
+        if not resp.startswith('ok '):
+            fails.append(fail('disagreement', 'driver: ' + resp, {'stream': 'hextrav'}, rp))
+        else:
+            model = [struct.unpack('<d', struct.pack('<Q', int(b)))[0] for b in resp.split()[1:]]
+            if any(abs(model[i] - a3[i]) > 1e-9 for i in range(3)):
+                fails.append(fail('disagreement', 'axial vector: code %r / model %r' % (a3, model), {'stream': 'hextrav'}, rp))
+    except Exception as e:  # noqa
+        fails.append(fail('violation', 'hexLatticeBaseVectors raises %s on an admissible eight-plane prism' % type(e).__name__,
                           {'stream': 'hextrav', 'class': 'exception'}, rp))
     return dict(hashes=[key], nontrivial_hashes=[key], dist={'hextrav:rot-%d' % rot: 1}, sample={'arr': arr}, failures=fails[:3])
 
